@@ -163,6 +163,52 @@ def State.edit (s : State D) (h : Nat) (spec : EditSpec D) : State D :=
     { heap, handles := s.handles.set h (some r') }
   | none => s
 
+/-- What a (re-)parse builds, as far as ownership is concerned: it *reuses* subtrees that already
+exist (of the old tree, of the parser's caches) by retaining them, creates inline leaves, and creates
+fresh cells whose children it built before (`ts_subtree_new_node` takes over the children's
+references).  Which subtrees are reused is the parser's business (C01/C12); here only the contract
+"reuse = retain, everything else is fresh" is modelled. -/
+inductive BuildSpec (D : Type) where
+  | reuse (r : Ref D)
+  | leaf (d : D)
+  | node (d : D) (kids : List (BuildSpec D))
+  deriving Repr, Inhabited
+
+mutual
+  def build (h : Heap D) : BuildSpec D → Heap D × Ref D
+    | .reuse r => (retain h r, r)
+    | .leaf d => (h, .inl d)
+    | .node d specs =>
+      let (h1, ks) := buildKids h specs
+      (h1 ++ [some { rc := 1, kids := ks, data := d }], .ptr h1.length)
+  def buildKids (h : Heap D) : List (BuildSpec D) → Heap D × List (Ref D)
+    | [] => (h, [])
+    | s :: ss =>
+      let (h1, k) := build h s
+      let (h2, ks) := buildKids h1 ss
+      (h2, k :: ks)
+end
+
+mutual
+  /-- The contract of a build: whatever it reuses exists. -/
+  def reusedLive (h : Heap D) : BuildSpec D → Bool
+    | .reuse (.ptr i) => (cellAt h i).isSome
+    | .reuse (.inl _) => true
+    | .leaf _ => true
+    | .node _ specs => reusedLiveL h specs
+  def reusedLiveL (h : Heap D) : List (BuildSpec D) → Bool
+    | [] => true
+    | s :: ss => reusedLive h s && reusedLiveL h ss
+end
+
+/-- `ts_parser_parse(old_tree = handle …)`: the result becomes a new handle; no existing handle is
+touched.  (A build that would reuse a non-existing cell is outside the contract: no-op.) -/
+def State.reparse (s : State D) (spec : BuildSpec D) : State D :=
+  if reusedLive s.heap spec then
+    let (heap, r) := build s.heap spec
+    { heap, handles := s.handles ++ [some r] }
+  else s
+
 /-- The explicit tree seen through a reference (what `observe` means in the property). -/
 inductive OTree (D : Type) where
   | mk (d : D) (kids : List (OTree D))
@@ -183,6 +229,27 @@ mutual
       | some t, some ts => some (t :: ts)
       | _, _ => none
 end
+
+/-- The only shared read-modify-write accesses that operations of *different* tree handles perform on
+common cells: atomic increments and decrements of reference counts (`atomic_inc` / `atomic_dec`). -/
+inductive Acc where
+  | inc (i : Nat)
+  | dec (i : Nat)
+  deriving DecidableEq, Repr
+
+def Acc.id : Acc → Nat
+  | .inc i => i
+  | .dec i => i
+
+def Acc.apply (h : Heap D) : Acc → Heap D
+  | .inc i => incr h i
+  | .dec i => decr h i
+
+/-- A global interleaving of atomic accesses, executed one after the other (sequential consistency). -/
+def applyAll (h : Heap D) (accs : List Acc) : Heap D := accs.foldl Acc.apply h
+
+def incsOf (i : Nat) (accs : List Acc) : Nat := (accs.filter (· == .inc i)).length
+def decsOf (i : Nat) (accs : List Acc) : Nat := (accs.filter (· == .dec i)).length
 
 /-- All references held by the state: handle roots and the child links of live cells. -/
 def kidsOf (h : Heap D) : List (Ref D) :=
